@@ -33,6 +33,7 @@ func c11(r *Report) {
 	}
 	c11SetBitTrue(r)
 	c11UpsertAll(r)
+	c11Audit3(r)
 	// the did table cascades into status_list: deleting a DID row erases set bits. Only the C13 compensation (created DIDs) may do it.
 	var didDel []Site
 	p.EachInstr(func(fn *ssa.Function, in ssa.Instruction) {
